@@ -68,6 +68,7 @@ func (c09Prop) Generate(seed uint64, idx int, tier string) *Plan {
 	}
 	pads := []int{0, 0, 1, 2, 5, 17, 60, 127, 128, 300, 4096}
 	flushP := r.PickInt([]int{0, 1, 3, 8})
+	huge := r.P(1, 8)
 	sizes := []int{}
 	for i := 0; i < n; i++ {
 		if r.P(flushP, 12) {
@@ -78,6 +79,10 @@ func (c09Prop) Generate(seed uint64, idx int, tier string) *Plan {
 			continue
 		}
 		pad := r.PickInt(pads)
+		if huge && r.P(1, 12) {
+			// records far larger than any internal buffer or retention threshold
+			pad = r.PickInt([]int{70000, 1<<20 + 5, 3 << 20})
+		}
 		pl.Ops = append(pl.Ops, C09Op{Pad: pad})
 		sizes = append(sizes, pad+3)
 	}
